@@ -441,7 +441,18 @@ struct Udp
 	{
 		USock& s = socks[a];
 		++ctx.handlers;
-		ctx.tr.rec("recv", {a, ec.value(), have_from ? 1 : 0}, {now_ns(), int64_t(n)});
+		{
+			// what was received goes into the trace byte for byte (as much as the buffers hold)
+			uint64_t h = 1469598103934665603ULL;
+			std::size_t left = ec ? 0 : n;
+			for (int b = 0; b < s.nrb && left > 0; ++b)
+			{
+				std::size_t const k = std::min(left, s.rb[b].size());
+				for (std::size_t i = 0; i < k; ++i) { h ^= s.rb[b][i]; h *= 1099511628211ULL; }
+				left -= k;
+			}
+			ctx.tr.rec("recv", {a, ec.value(), have_from ? 1 : 0}, {now_ns(), int64_t(n), int64_t(h)});
+		}
 		if (ep == s.epoch) s.recv_pending = false;
 		if (ec)
 		{
